@@ -56,3 +56,9 @@ claim("C18",
   "Trusted: go/ssa, SCCP evaluator. Not covered: semantic equality with 'previous non-time part AND window' for every condition shape, growth over call sequences, OR between time bounds.",
   "static analysis: recogniser comparison and format/flow checks on SSA + SCCP truth table of the fold short-cuts",
   "DESIGN.md 4/C18")
+
+claim("C19",
+  "All 45 RequiredPrivileges methods are examined on every return path: the 23 administrative kinds return Admin: true literals; every path yields a non-empty list (a literal, a delegation to another statement, or a delegation to the sources under a dominating non-emptiness guard); the source recursion names every Source implementer, adds read for every measurement with no skipping path, recurses into subqueries with error propagation; SELECT adds write on the INTO target; EXPLAIN delegates on every path; CREATE CONTINUOUS QUERY adds write on its target. Privilege tables are literals in the code, so visiting every return path decides them for every statement and nesting depth.",
+  "Trusted: go/types, guard-dominance engine. The parser's guarantee that SELECT has at least one source is checked structurally (parseSelectStatement stores parseSources unconditionally) and otherwise assumed. Not covered: privileges of statement kinds the property does not constrain (e.g. which non-admin privilege SHOW commands use).",
+  "static analysis: return-path enumeration over the type-checked AST with guard dominance; sealed-switch exhaustiveness",
+  "DESIGN.md 4/C19")
